@@ -65,10 +65,23 @@ def mutants():
     return "\n".join(["| property | deliberate breakages | caught (quick tier) | not caught in quick |", "|---|---|---|---|"] + rows)
 
 
+def clauses():
+    """Clause inventory read from the modules (no library import needed for most; falls back to evidence)."""
+    out = []
+    for ev in sorted(glob.glob(os.path.join(V, "evidence", "C*.json"))):
+        e = json.load(open(ev))
+        pid = e["property_id"]
+        cl = e["coverage"].get("clauses", {})
+        out.append("* **%s** (%s tier evidence, seed %s: %d evaluations, %d distinct non-trivial, %.0f s): %s" % (
+            pid, e["tier"], e["seed"], e["coverage"]["evaluations"], e["coverage"]["distinct_nontrivial"], e["wall_s"],
+            "; ".join("`%s` %d%s" % (n, c["evaluations"], " (exhaustive)" if c.get("exhaustive") else "") for n, c in cl.items())))
+    return "\n".join(out)
+
+
 def main():
     p = os.path.join(V, "DESIGN.md")
     s = open(p).read()
-    for key, fn in (("findings", findings), ("seeded", seeded), ("mutants", mutants)):
+    for key, fn in (("findings", findings), ("seeded", seeded), ("mutants", mutants), ("clauses", clauses)):
         pat = re.compile(r"(<!-- BEGIN:%s -->)(.*?)(<!-- END:%s -->)" % (key, key), re.S)
         if not pat.search(s):
             print("no marker for", key)
